@@ -5,6 +5,10 @@ set of quarks active on some segment is computed by the independent path builder
 heavy quark q the rows and columns q, qbar of the flavour-space evolution matrix (Mellin moments
 through the real runner under the moment probe; x-space tensor for the S3 cards) must be exactly
 the unit vectors e_q.
+Scale variations (both schemes, xi != 1) are switched on for a sub-lattice: the expanded factor K and the
+re-expanded anomalous dimensions / matching must not touch quarks that are never active. On the un-stubbed (S3)
+cards the stored integration-error tensor of those rows/columns must be exactly zero as well (a weight that is
+exactly one has no integration error), and entries between different grid points are exactly 0.0.
 """
 
 import numpy as np
@@ -18,7 +22,8 @@ LEVEL = "exploration"
 TECHNIQUE = "exhaustive enumeration of the configuration product through the real runner at the moment-probe seam (+ un-stubbed tiny-grid solves); exact unit-vector oracle on inactive-quark rows/columns"
 LEVEL_TEXT = (
     "full product of 9 flavour paths x QCD order x 8 methods x QED order x unpol/pol/time-like is solved by the real runner; rows and "
-    "columns of quarks never active on the path must be unit vectors (zeros and ones to 8 ulp)"
+    "columns of quarks never active on the path must be unit vectors (zeros and ones to 8 ulp); a sub-lattice with both scale-variation "
+    "schemes at xi != 1; on the un-stubbed cards also exact zeros between grid points and in the error tensor"
 )
 LEVEL_NOTE = "S2 probe removes Mellin inversion/interpolation (covered by S3 cards on 3-point grids); masses/scales fixed; interpreted mode"
 FLOOR_NONTRIVIAL = 100
@@ -46,6 +51,8 @@ def _cfg(case):
         max_order=[3, 0],
         inversion=case.get("inversion", "expanded"),
         em_running=case.get("em_running", False),
+        sv=case.get("sv"),
+        xif=case.get("xif", 1.0),
         **KINDS[case["kind"]],
     )
 
@@ -80,8 +87,9 @@ def evaluate(case):
     active = refp.active_quarks(walls, (cfg["init"][0] ** 2, nf0), (cfg["mugrid"][0][0] ** 2, nff))
     inactive = [q for q in (4, 5, 6) if q > max(active)]
     shape = "fixed" if nf0 == nff else ("up" if nff > nf0 else "down")
-    sig = f"solve/{case['seam']}/{shape}/qed={int(case['qed'] > 0)},kind={case['kind']}"
-    where = f"path={case['path']} order={cfg['order']} method={cfg['method']} kind={KINDS[case['kind']]} inactive={inactive}"
+    sig = f"solve/{case['seam']}/{shape}/qed={int(case['qed'] > 0)},kind={case['kind']}" + (f",sv={case['sv']}" if case.get("sv") else "")
+    where = f"path={case['path']} order={cfg['order']} method={cfg['method']} kind={KINDS[case['kind']]} sv={cfg['sv']} xif={cfg['xif']} inactive={inactive}"
+    worst_err, n_err = 0.0, 0
     try:
         if case["seam"] == "s2":
             out = probe.moment_solve(cfg, MOMENTS)
@@ -100,8 +108,18 @@ def evaluate(case):
                             for q in inactive:
                                 for pid in (q, -q):
                                     i = PIDS.index(pid)
-                                    if np.abs(op[i, j, :, k]).max() > 1e-15 or np.abs(op[:, j, i, k]).max() > 1e-15:
+                                    if np.abs(op[i, j, :, k]).max() != 0.0 or np.abs(op[:, j, i, k]).max() != 0.0:
                                         res.fail(sig + "/offgrid", f"{where}: inactive pid {pid} couples grid points {j}->{k}")
+                # error tensor: identities are not integrated, so their error estimate is exactly zero
+                if err is not None:
+                    n_err += 1
+                    for q in inactive:
+                        for pid in (q, -q):
+                            i = PIDS.index(pid)
+                            e = max(float(np.abs(err[i]).max()), float(np.abs(err[:, :, i, :]).max()))
+                            worst_err = max(worst_err, e)
+                            if e != 0.0 or not np.all(np.isfinite(err[i])) or not np.all(np.isfinite(err[:, :, i, :])):
+                                res.fail(sig + "/error-tensor", f"{where}: inactive pid {pid} has a non-zero integration error estimate {e:.3e}")
     except (NotImplementedError, ValueError) as e:
         res.outcome = f"refused:{str(e)[:40]}"
         res.nontrivial = False
@@ -117,6 +135,8 @@ def evaluate(case):
         for q in inactive:
             worst = max(worst, _unit_check(res, mat, q, sig, where))
     res.info = {"max_dev": worst, "inactive": len(inactive)}
+    if case["seam"] == "s3":
+        res.info.update(max_err_inactive=worst_err, error_tensors=n_err)
     res.outcome = f"{shape}:inactive={inactive}"
     res.nontrivial = bool(inactive)
     return res
@@ -140,6 +160,19 @@ def run(ctx):
             cases.append(dict(seam="s2", path=list(path), qcd=qcd, qed=0, kind=0, method="truncated", inversion="exact"))
     for path in PATHS:
         cases.append(dict(seam="s2", path=list(path), qcd=2, qed=1, kind=0, method="iterate-exact", em_running=True))
+    # N3LO (as3 matching labels) on one upward path in quick (thorough: part of the product above)
+    if not ctx.thorough():
+        cases.append(dict(seam="s2", path=[3, 4], qcd=4, qed=0, kind=0, method="truncated"))
+    # scale variations switched on: K factor (expanded; also on zero-length segments) / re-expanded gamma and matching
+    # (exponentiated) with xi = 2 and 1/2, one path of every shape, with and without QED
+    svpaths = PATHS if ctx.thorough() else [(4, 4), (3, 4), (5, 4), (3, 5)]
+    for path in svpaths:
+        for sv in ("expanded", "exponentiated"):
+            for xif in (2.0, 0.5):
+                for qcd, qed, m in ((2, 0, "truncated"), (3, 0, "iterate-exact"), (2, 1, "iterate-exact")):
+                    if not ctx.thorough() and (xif == 0.5) != (qcd == 3):
+                        continue
+                    cases.append(dict(seam="s2", path=list(path), qcd=qcd, qed=qed, kind=0, method=m, sv=sv, xif=xif))
     # S3: real integration on a 3-point grid
     s3paths = PATHS if ctx.thorough() else [(3, 3), (3, 4), (5, 4), (4, 5)]
     for path in s3paths:
@@ -147,10 +180,14 @@ def run(ctx):
             if qed and not ctx.thorough() and path != (3, 4):
                 continue
             cases.append(dict(seam="s3", path=list(path), qcd=qcd, qed=qed, kind=0, method=m))
+    cases.append(dict(seam="s3", path=[3, 4], qcd=2, qed=0, kind=0, method="truncated", sv="expanded", xif=2.0))
+    cases.append(dict(seam="s3", path=[5, 4], qcd=2, qed=0, kind=0, method="truncated", sv="exponentiated", xif=2.0))
     ctx.run_cases(cases, evaluate, chunksize=2)
     ctx.rule = (
         f"product of 9 flavour paths (fixed nf 3-5, up 3->4, 3->5, 4->5, down 4->3, 5->4, 5->3) x QCD order {orders} x "
         "unpol/pol/time-like x QED order 0-2 x solution methods (all 8 without QED; quick: 2 with QED and 4 at NNLO) at the moment-probe seam (N = 2, 3.3), exact-inversion and "
-        "em-running variants, and un-stubbed 3-point-grid solves; non-trivial = solved and at least one heavy quark never active"
+        "em-running variants, both scale-variation schemes at xi = 2, 1/2 (NLO, NNLO, QED x NLO; quick: 4 paths), "
+        + ("" if ctx.thorough() else "one N3LO upward path, ")
+        + "and un-stubbed 3-point-grid solves (operator and error tensor; 2 with scale variations); non-trivial = solved and at least one heavy quark never active"
     )
     ctx.assumptions += ["active set from the independent path builder (vf.ref.paths)"]
